@@ -148,7 +148,7 @@ def random_leaf(rnd, keys=KEYS):
         if q < 0.18:
             return {"k": "set", "p": list(p), "v": {"t": "str", "toks": []}, "ch": []}
         if q < 0.22:
-            return {"k": "set", "p": list(p), "v": {"t": "none", "toks": [_lit("None")]}, "ch": []}
+            return {"k": "set", "p": list(p), "v": {"t": "none", "toks": [_lit(ch) for ch in "None"]}, "ch": []}
         return {"k": "set", "p": list(p), "v": {"t": "int", "toks": [_lit(rnd.choice("12"))]}, "ch": []}
     if r < 0.42:
         p, v = rnd.choice(FMT_VALUES)
@@ -370,7 +370,7 @@ def _run(ctx):
             lambda: ctx.mc("StaticContext", "StaticContext_%s.cfg" % tag),
             lambda: demo_defect_models(ctx)]
     if ctx.thorough:
-        jobs.append(lambda: ctx.mc("StaticContext", "StaticContext_sim.cfg", simulate=5000, depth=24))
+        jobs.append(lambda: ctx.mc("StaticContext", "StaticContext_sim.cfg", simulate=2000, depth=24))
     bg = Background(jobs)
     # ---- spec -> code (main thread)
     cwd = os.getcwd()
@@ -378,7 +378,7 @@ def _run(ctx):
     os.makedirs(scratch)
     os.chdir(scratch)
     try:
-        exports = (["StaticContext_thorough_export_%s.cfg" % f for f in "FABC"] if ctx.thorough
+        exports = (["StaticContext_thorough_export_%s.cfg" % f for f in ("F1", "F2", "A", "B", "C")] if ctx.thorough
                    else ["StaticContext_quick_export.cfg"])
         for cfg in exports:
             recs = ctx.export("StaticContext", cfg, min_records=1000)
@@ -388,7 +388,7 @@ def _run(ctx):
             ctx.sample({"spec_behaviour": _brief(recs[len(recs) * 2 // 3])}, limit=3)
             del recs
         # ---- code -> spec
-        accepted = c2s(ctx, 6000 if ctx.thorough else 300, 14 if ctx.thorough else 10, stats)
+        accepted = c2s(ctx, 4000 if ctx.thorough else 300, 14 if ctx.thorough else 10, stats)
     finally:
         os.chdir(cwd)
     if accepted:
